@@ -109,9 +109,27 @@ type Case struct {
 	// "open-seat" (as coded a non-candidate wins: the known finding).
 	Bully      []BMsg `json:"bully,omitempty"`
 	BullyClass string `json:"bully_class,omitempty"`
+	// Messages of the session that arrive DURING the re-election and the replacement attempt - from an excluded
+	// culprit, from a peer that is not the elected coordinator, from the old coordinator: Early (fail messages)
+	// is handed to handleError's watcher as soon as this relayer has announced itself in the bully election;
+	// the fail messages of Msgs2 reach a relayer that coordinates the replacement attempt before its ready
+	// stream; Hold2 keeps the replacement Run in progress until During (fail messages) was handed over.
+	Early  []Msg `json:"early,omitempty"`
+	During []Msg `json:"during,omitempty"`
+	Hold2  bool  `json:"hold2,omitempty"`
 	// real (real.go): real signing processes on the fixture key shares over an in-memory network; the
 	// fields above are the model's inputs, derived from the scenario when the case is generated
 	Real *RealSpec `json:"real,omitempty"`
+}
+
+// offered: everything offered to the relayer after the failure, in arrival order (the model's msgs2)
+func (c Case) offered() []Msg {
+	if len(c.Early) == 0 && len(c.During) == 0 {
+		return c.Msgs2
+	}
+	out := append([]Msg{}, c.Early...)
+	out = append(out, c.Msgs2...)
+	return append(out, c.During...)
 }
 
 func (c Case) script() []BMsg {
@@ -505,8 +523,19 @@ func drive(c Case, bullyWait time.Duration) attempt {
 	var nbMu sync.Mutex
 	setNotBefore := func(x time.Time) { nbMu.Lock(); notBefore = x; nbMu.Unlock() }
 	getNotBefore := func() time.Time { nbMu.Lock(); defer nbMu.Unlock(); return notBefore }
+	release := make(chan struct{})
+	var relOnce sync.Once
+	doRelease := func() { relOnce.Do(func() { close(release) }) }
+	defer doRelease()
 	proc.Behave = func(n int, ctx context.Context) error {
 		if n > 0 || c.Kind != "fail" {
+			if c.Hold2 {
+				// the replacement Run stays in progress until the runner has handed over what arrives meanwhile
+				select {
+				case <-release:
+				case <-ctx.Done():
+				}
+			}
 			return nil
 		}
 		// ordered after the first attempt's own read of the field (start() evaluated it before this
@@ -586,6 +615,33 @@ func drive(c Case, bullyWait time.Duration) attempt {
 		}
 	}
 
+	// fail messages that arrive while the re-election runs: handed to handleError's watcher (the second fail
+	// subscription) once this relayer has announced itself - or not at all if no election takes place
+	deliverEarly := func(readyOrd, startOrd int) {
+		if len(c.Early) == 0 {
+			return
+		}
+		for begin := time.Now(); !bully.WaitSent(comm.CoordinatorSelectMsg, 1, done, 20*time.Millisecond); {
+			select {
+			case <-done:
+				return
+			default:
+			}
+			if cm.SubCount(c.Sid, comm.TssStartMsg) >= startOrd || cm.SubCount(c.Sid, comm.TssReadyMsg) >= readyOrd {
+				return
+			}
+			if lim := fk.C07Deadline(); time.Since(begin) > lim {
+				d.Doubt(lim)
+				return
+			}
+		}
+		for _, m := range c.Early {
+			if m.Type == "fail" {
+				d.Deliver(comm.TssFailMsg, 2, t.ids[m.From], []byte{})
+			}
+		}
+	}
+
 	// ---- first attempt
 	nfirst := 0
 	if c.Kind == "fail" {
@@ -630,6 +686,7 @@ func drive(c Case, bullyWait time.Duration) attempt {
 		if c.Kind == "silent" || !role1 {
 			startOrd = 2
 		}
+		deliverEarly(readyOrd, startOrd)
 		deliverBully(readyOrd, startOrd)
 		lim := fk.C07Deadline()
 		sub := cm.WaitAnySub(c.Sid, []fk.ScriptWant{{Type: comm.TssReadyMsg, Ordinal: readyOrd}, {Type: comm.TssStartMsg, Ordinal: startOrd}}, done, lim)
@@ -641,6 +698,13 @@ func drive(c Case, bullyWait time.Duration) attempt {
 				d.Expired(lim)
 			}
 		case sub.Type == comm.TssReadyMsg:
+			// this relayer coordinates the replacement attempt: the fail messages of the session reach
+			// handleError's watcher while it collects the ready messages
+			for _, m := range c.Msgs2 {
+				if m.Type == "fail" {
+					d.Deliver(comm.TssFailMsg, 2, t.ids[m.From], []byte{})
+				}
+			}
 			for _, s := range c.Ready2 {
 				d.Deliver(comm.TssReadyMsg, readyOrd, t.ids[s], nil)
 			}
@@ -648,6 +712,17 @@ func drive(c Case, bullyWait time.Duration) attempt {
 			// the wait exists: arrival times count from here (never earlier than the real beginning);
 			// handleError watches with the empty coordinator id (second fail subscription)
 			r.timed(t, c.Msgs2, time.Now(), startOrd, 2, nil)
+		}
+		if c.Hold2 {
+			// while the replacement Run is in progress
+			if sub != nil && d.WaitRuns(nfirst+1) {
+				for _, m := range c.During {
+					if m.Type == "fail" {
+						d.Deliver(comm.TssFailMsg, 2, t.ids[m.From], []byte{})
+					}
+				}
+			}
+			doRelease()
 		}
 		if bully.AnySub() && !d.Stuck {
 			lim := fk.C07Deadline()
@@ -808,7 +883,7 @@ func runNow(c Case) Obs {
 		return runReal(c)
 	}
 	wait := 30 * time.Millisecond
-	if len(c.script()) > 0 {
+	if len(c.script()) > 0 || len(c.Early) > 0 {
 		wait = 300 * time.Millisecond
 	}
 	a := drive(c, wait)
@@ -1373,6 +1448,77 @@ func genCases(r *vgen.Rng, tier string) []Case {
 				out = append(out, c)
 			}
 		}
+		// messages of the session that arrive during the re-election and the replacement attempt: fail / initiate /
+		// start messages of an excluded culprit, of a key holder that is neither a culprit nor the elected
+		// coordinator, of the first attempt's coordinator - before, between and after the elected coordinator's
+		// own messages, while this relayer waits, coordinates, and while the replacement Run is in progress
+		for ti, tk := range []struct {
+			who, cause, variant string
+			role1, winner      bool
+		}{
+			{"culprit", "coord", "immediate", false, true}, {"culprit", "tss", "immediate", true, false},
+			{"culprit", "tss", "immediate", false, true}, {"culprit", "tss", "abort", false, false},
+			{"bystander", "tss", "immediate", false, true}, {"old-coordinator", "tss", "immediate", false, true},
+			{"culprit", "coord", "abort", false, true}, {"culprit", "coord", "immediate", true, false},
+			{"bystander", "coord", "immediate", true, false}, {"culprit", "two", "immediate", false, true},
+		} {
+			c := mk(tk.cause, tk.role1, procs[(ti+k)%2], tk.winner, tk.variant)
+			order := sortedByKey(c.Peers, c.Sid, c.Holders)
+			excluded := map[int]bool{}
+			var walk func(Err)
+			walk = func(x Err) {
+				if x.K == "coord" {
+					excluded[x.Peer] = true
+				}
+				for _, q := range x.Culprits {
+					excluded[q] = true
+				}
+				for _, kid := range x.Kids {
+					walk(kid)
+				}
+			}
+			walk(*c.Err)
+			starter := -1
+			for _, m := range c.Msgs2 {
+				if m.Type == "start" {
+					starter = m.From
+				}
+			}
+			x := -1
+			for _, p := range shuffled(r, c.Holders) {
+				if p == c.Self {
+					continue
+				}
+				switch tk.who {
+				case "culprit":
+					if excluded[p] {
+						x = p
+					}
+				case "bystander":
+					if !excluded[p] && p != starter {
+						x = p
+					}
+				default:
+					if p == order[0] {
+						x = p
+					}
+				}
+			}
+			if x < 0 || starter < 0 || excluded[c.Self] {
+				continue
+			}
+			sub := shuffled(r, c.Holders)[:c.T+1]
+			c.Early = []Msg{{Type: "fail", From: x}}
+			c.Msgs2 = []Msg{{Type: "fail", From: x}, {Type: "initiate", From: x}, {Type: "start", From: x, Params: []int{x}},
+				{Type: "initiate", From: starter}, {Type: "fail", From: x}, {Type: "start", From: starter, Params: sub},
+				{Type: "initiate", From: x}, {Type: "fail", From: x}}
+			if ti%3 == 2 {
+				c.Msgs2 = c.Msgs2[3:]
+			}
+			c.During = []Msg{{Type: "fail", From: x}, {Type: "fail", From: x}}
+			c.Hold2 = true
+			out = append(out, c)
+		}
 		// how long a left-out relayer keeps waiting: CoordinatorTimeout << arrival of the replacement
 		// attempt's start << TssTimeout (it must still join), and arrival >> TssTimeout (it has given up)
 		for si, scenario := range []string{"late-start", "late-initiate-start", "two-initiators", "past-tss", "past-tss-after-initiate"} {
@@ -1641,10 +1787,10 @@ func coq(c Case, o Obs) string {
 		if o.B != nil {
 			ob = *o.B
 		}
-		return "Duo " + head + " " + P(c.Other) + " " + PL(c.Ready1) + " " + vgen.ListOf(c.Msgs2, tmsg) + " " + coqObs(o) + " " + coqObs(ob)
+		return "Duo " + head + " " + P(c.Other) + " " + PL(c.Ready1) + " " + vgen.ListOf(c.offered(), tmsg) + " " + coqObs(o) + " " + coqObs(ob)
 	}
 	head += " " + procKind(c.Proc) + " " + vgen.Bool(o.Retryable)
-	tail := PL(c.Unreach) + " " + winner + " " + PL(c.Ready2) + " " + vgen.ListOf(c.Msgs2, tmsg) + " "
+	tail := PL(c.Unreach) + " " + winner + " " + PL(c.Ready2) + " " + vgen.ListOf(c.offered(), tmsg) + " "
 	if c.Kind == "silent" {
 		return "Silent " + head + " " + vgen.ListOf(c.Msgs1, tmsg) + " " + tail + PL(o.Ready1) + " " + coqObs(o)
 	}
@@ -1716,7 +1862,11 @@ func kind(c Case) string {
 	if len(c.Bully) > 0 {
 		bully = ":intruder-" + c.BullyClass
 	}
-	return "fail:" + procKind(c.Proc) + ":" + s[1:] + ":" + c.Variant + timed + unreach + bully
+	talk := ""
+	if len(c.Early) > 0 || len(c.During) > 0 {
+		talk = ":talk"
+	}
+	return "fail:" + procKind(c.Proc) + ":" + s[1:] + ":" + c.Variant + timed + unreach + bully + talk
 }
 
 func main() {
